@@ -2764,6 +2764,51 @@ async def c10_reload_bounded(w):
             "distinct_nontrivial": len(nontrivial), "samples": samples}
 
 
+async def c04_classification_bounded(w):
+    """Bounded stand-in for the regular expression that splits @state_trigger arguments into any-change names and
+    expressions (STATE_RE in trigger.py and decorators/state.py): strings from a small alphabet, classified by the REAL
+    decorator validation / TrigInfo construction and by an independent parser of the documented forms d.e / d.e.attr / d.e.*"""
+    import itertools, string
+    from custom_components.pyscript import trigger as T
+    from custom_components.pyscript.decorators import state as DS
+    await boot_full()
+    atoms = ["d", "e1", "_x", "9", "*", "", " ", "a b", "old", "==", "é"]
+    cands = set()
+    for n in (1, 2, 3, 4):
+        for combo in itertools.product(atoms, repeat=n):
+            cands.add(".".join(combo))
+    cands |= {"d.e == '1'", "d.e.attr > 3", "d.e.* ", " d.e", "d.e\n", "d..e", "d.e.", "d.e.*.x", "d.e.**", "int(d.e)", "d.e or f.g"}
+
+    def is_word(x):
+        return len(x) > 0 and all(ch == "_" or ch.isalnum() for ch in x)
+
+    def documented(sv):
+        # "d.e", "d.e.attr", "d.e.*": dot-separated words, two or three of them, the third possibly '*'
+        # (a single trailing newline is accepted by '$' in Python regular expressions; such strings never come from a decorator)
+        if sv.endswith("\n"):
+            return None
+        p = sv.split(".")
+        if len(p) == 2:
+            return is_word(p[0]) and is_word(p[1])
+        if len(p) == 3:
+            return is_word(p[0]) and is_word(p[1]) and (is_word(p[2]) or p[2] == "*")
+        return False
+    failures, cases = [], 0
+    for sv in sorted(cands):
+        want = documented(sv)
+        if want is None:
+            continue
+        for name, rx in (("trigger.py", T.STATE_RE), ("decorators/state.py", DS.STATE_RE)):
+            got = bool(rx.match(sv))
+            cases += 1
+            if got != want and len(failures) < 3:
+                failures.append({"signature": f"classification:{name}:{sv!r}", "string": sv, "module": name, "classified_as_name": got, "documented_as_name": want})
+    await shutdown()
+    return {"unit": "STATE_RE (both subsystems)", "method": "strings over a small alphabet vs an independent parser of the documented name forms",
+            "bound": f"{len(cands)} strings of <= 4 dot-separated atoms from {atoms}", "cases": cases, "failures": failures, "reproduced": bool(failures),
+            "distinct_nontrivial": sum(1 for sv in cands if documented(sv)), "samples": sorted(cands)[:5]}
+
+
 SCENARIOS = {k: v for k, v in list(globals().items()) if asyncio.iscoroutinefunction(v) and k[0] == "c"}
 
 if __name__ == "__main__":
